@@ -205,6 +205,38 @@ def run(lines, out, args):
                         _gotset = set(_fn(_s).flattened())
                         if _gotset != _want:
                             raise AssertionError("META-SUPER %s(super(%s, K)) = %s" % (_fn.__name__, _c.__name__, sorted(i.__name__ for i in _gotset)))
+                # a declaration on `object` ITSELF (legal: `classImplements(object, IRoot)`; seeded change o19a left `object` out of the
+                # remainder as "the empty specification anyway"): super(K, ob) with K the LAST class before `object`, the remainder of the MRO
+                # is `object` alone; also with a class in between, and through an adapter lookup. Undone before the history starts.
+                from zope.interface import classImplementsOnly as _cio
+                from zope.interface.adapter import AdapterRegistry as _AR
+                _IR = InterfaceClass("IRootDecl%d" % serial[0], (Interface,), __module__="zi.gen")
+                _IPq = InterfaceClass("IRootProv%d" % serial[0], (Interface,), __module__="zi.gen")
+                _KO = type("KLast", (), {})
+                _KD = type("KDerived", (_KO,), {})
+                _ob0, _ob1 = _KO(), _KD()
+                _pb(super(_KO, _ob1))                          # (asked once before the declaration: a cached super specification)
+                _so = _ib(object)
+                _ci(object, _IR)
+                try:
+                    _reg = _AR()
+                    _reg.register([_IR], _IPq, "", "root-adapter")
+                    for _c, _o in ((_KO, _ob0), (_KO, _ob1), (_KD, _ob1)):
+                        _s = super(_c, _o)
+                        for _fn in (_pb, _ib):
+                            _gotset = set(_fn(_s).flattened())
+                            if _gotset != {_IR, Interface}:
+                                raise AssertionError("OBJECT-SUPER %s(super(%s, %s())) = %s, `object` implements %s" % (
+                                    _fn.__name__, _c.__name__, type(_o).__name__, sorted(i.__name__ for i in _gotset), _IR.__name__))
+                        if _reg.lookup([_pb(_s)], _IPq, "") != "root-adapter":
+                            raise AssertionError("OBJECT-SUPER lookup through super(%s, %s()) misses the adapter registered for what `object` implements" % (
+                                _c.__name__, type(_o).__name__))
+                finally:
+                    _cio(object)
+                    _so.inherit = object
+                if set(_pb(super(_KO, _ob1)).flattened()) != {Interface}:
+                    raise AssertionError("OBJECT-SUPER the declaration on `object` was withdrawn, super(KLast, KDerived()) still provides %s" % (
+                        sorted(i.__name__ for i in _pb(super(_KO, _ob1)).flattened()),))
             elif op == "iface":
                 bs = [int(x) for x in f[2].split()]
                 st["ifs"][int(f[1])] = InterfaceClass("I%d_%s" % (serial[0], f[1]), tuple(st["ifs"][b] for b in bs) or (Interface,), __module__="zi.gen")
